@@ -355,7 +355,8 @@ void h_assign()
 // direction and with the witness of the Memory::compare contract in the other.
 static bool eq_ok(const Buffer& b, const Buffer& o, bool r)
 {
-  usize sb = b.size(), so = o.size();
+  // (no member calls here: predicates used in contract clauses are not instrumented by DFCC, P22)
+  usize sb = b.bufferEnd - b.bufferStart, so = o.bufferEnd - o.bufferStart;
   if(r)
     return sb == so && (g_cmp_k >= sb || b.bufferStart[g_cmp_k] == o.bufferStart[g_cmp_k]);
   return sb != so || (g_cmp_wit < sb && b.bufferStart[g_cmp_wit] != o.bufferStart[g_cmp_wit]);
